@@ -1,7 +1,7 @@
 """Abstract TLV trees: normalisation, rendering, queries, comparison with reference schemas."""
 import formula as F
 from formula import And, Not, Or
-from interp import V, core, roots, Const, Def, TagV, CallV, DerV, Via, Sel, Param, StructV, MutV, IndexV, OpV, PhiV
+from interp import V, core, roots, places, calls_of, Const, Def, TagV, CallV, DerV, Via, Sel, Param, StructV, MutV, IndexV, OpV, PhiV
 
 
 def norm(items):
@@ -28,6 +28,8 @@ def norm(items):
         elif t in ("Seq", "Set", "SetOf", "Tagged"):
             n = dict(it)
             n["c"] = norm(it["c"])
+            if t == "Tagged":
+                n = canon_tag(n)
             out.append(n)
         elif t == "Prim":
             n = dict(it)
@@ -42,6 +44,35 @@ def norm(items):
             out.append(n)
         else:
             out.append(it)
+    return out
+
+
+def canon_tag(n):
+    """IMPLICIT [n] over SEQUENCE{..}/SET{..} has the same bytes as EXPLICIT [n] around the
+    children: normalise to the latter so both spellings compare equal (and an implicitly
+    re-tagged CHOICE member, one nesting level short, compares unequal)."""
+    if n.get("mode") == "implicit":
+        kids = [k for k in n["c"]]
+        if len(kids) == 1 and kids[0]["t"] in ("Seq", "Set", "SetOf"):
+            n = dict(n)
+            n["mode"] = "explicit"
+            n["was_implicit_over"] = kids[0]["t"]
+            n["c"] = kids[0]["c"]
+    return n
+
+
+def canon_ref(items):
+    out = []
+    for it in items:
+        n = dict(it)
+        for key in ("c", "inner"):
+            if key in n:
+                n[key] = canon_ref(n[key])
+        if n["t"] == "Choice":
+            n["alts"] = {k: canon_ref(v) for k, v in n["alts"].items()}
+        if n["t"] == "Tagged":
+            n = canon_tag(n)
+        out.append(n)
     return out
 
 
@@ -141,3 +172,469 @@ def assume(items, asg):
                 n[key] = assume(it[key], asg)
         out.append(n)
     return norm(out)
+
+
+# ---------------------------------------------------------------------------
+# reference-schema matcher
+#
+# Reference nodes (python dicts):
+#   {'t':'Seq'|'Set'|'SetOf', 'c':[...], 'unordered':bool}
+#   {'t':'Tagged','n':int|'TAG_X','mode':'explicit'|'implicit','c':[...]}
+#   {'t':'Prim','kind':K,'v':spec,'args':[spec...],'inner':[...]}
+#   {'t':'Raw','v':spec}
+#   {'t':'Cond','f':'formula text','c':[...]}
+#   {'t':'Rep','over':'place','c':[...]}
+#   {'t':'Choice','on':'place','alts':{Variant:[...]}, 'others_empty':bool}
+#   {'t':'Time','src':'place'}         -- one RFC 5280 Time (UTCTime | GeneralizedTime) bound to src
+# Value specs: {'const':v} | {'src':'rendered'} | {'roots':[...]} | {'any':True} | {'pred':callable}
+
+def flatten(items, cond=True, reps=()):
+    out = []
+    for it in items:
+        if it["t"] == "Cond":
+            f = it["f"]
+            if isinstance(f, str):
+                f = F.parse(f)
+            out.extend(flatten(it["c"], And(cond, f), reps))
+        elif it["t"] == "Rep":
+            out.extend(flatten(it["c"], cond, reps + (it["over"],)))
+        else:
+            out.append((cond, reps, it))
+    return out
+
+
+def oid_key(interp, node):
+    """Key of an Extension-like SEQUENCE: the constant OID of its first child, else 'dynamic:<src>'."""
+    kids = flatten(node.get("c", []))
+    for cond, reps, k in kids:
+        if k["t"] == "Prim" and k.get("kind") == "OID":
+            if "v" in k and isinstance(k["v"], dict):   # reference node
+                spec = k["v"]
+                if "const" in spec:
+                    return "oid:" + ".".join(str(x) for x in spec["const"])
+                return "dynamic"
+            c = interp.concrete(k["args"][0]) if k.get("args") else None
+            if c is not None:
+                return "oid:" + ".".join(str(x) for x in c)
+            return "dynamic"
+        break
+    return "noid"
+
+
+class Matcher:
+    def __init__(self, interp, rep, rule, fn):
+        self.I = interp
+        self.rep = rep
+        self.rule = rule
+        self.fn = fn
+        self.n = 0
+
+    def err(self, path, what, sp=None, expected=None, found=None):
+        self.rep.fail(self.rule, "%s|%s" % (self.fn, "/".join(path)), what, sp=sp, expected=expected, found=found)
+
+    def ok(self, path, detail=""):
+        self.n += 1
+        self.rep.ob(self.rule, "%s|%s" % (self.fn, "/".join(path)), True, detail)
+
+    # -- values -------------------------------------------------------------------
+    def value(self, spec, v, path, sp):
+        if spec is None or spec.get("any"):
+            return True
+        if "const" in spec:
+            c = self.I.concrete(v)
+            want = spec["const"]
+            if isinstance(want, tuple):
+                want = list(want)
+            if c != want:
+                self.err(path, "constant differs", sp, expected=want, found=c if c is not None else core(v).r())
+                return False
+            return True
+        if "src" in spec:
+            got = core(v).r()
+            alts = spec["src"] if isinstance(spec["src"], (list, tuple)) else [spec["src"]]
+            if got not in alts:
+                self.err(path, "value comes from a different place", sp, expected=alts[0], found=got)
+                return False
+            return True
+        if "places" in spec:
+            got = places(v)
+            want = set(spec["places"])
+            if not covers(want, got):
+                self.err(path, "value is not derived from exactly the expected input(s)", sp, expected=sorted(want), found=sorted(got))
+                return False
+            if spec.get("via"):
+                calls = calls_of(v)
+                missing = [c for c in spec["via"] if not any(x.endswith(c) for x in calls)]
+                if missing:
+                    self.err(path, "value does not pass through the expected function", sp, expected=missing, found=sorted(calls))
+                    return False
+            if spec.get("not_via"):
+                calls = calls_of(v)
+                bad = [c for c in spec["not_via"] if any(x.endswith(c) for x in calls)]
+                if bad:
+                    self.err(path, "value passes through an unexpected function", sp, expected="none of %s" % spec["not_via"], found=bad)
+                    return False
+            return True
+        if "roots" in spec:
+            got = roots(v)
+            want = set(spec["roots"])
+            if not want <= got or (spec.get("exact") and got != want):
+                self.err(path, "value does not depend on the expected inputs", sp, expected=sorted(want), found=sorted(got))
+                return False
+            return True
+        if "pred" in spec:
+            e = spec["pred"](v, self.I)
+            if e:
+                self.err(path, e, sp, found=core(v).r())
+                return False
+            return True
+        return True
+
+    # -- lists ----------------------------------------------------------------------
+    def match_list(self, ref, inf, path, unordered=False):
+        rs = flatten(ref)
+        fs = flatten(inf)
+        if unordered:
+            return self.match_unordered(rs, fs, path)
+        i = 0
+        for (rc, rr, rn) in rs:
+            if rn["t"] == "Choice":
+                on = rn["on"]
+                grp = []
+                while i < len(fs) and self._depends_on(fs[i], on):
+                    grp.append(fs[i])
+                    i += 1
+                self.match_choice(rn, rc, rr, grp, path)
+                continue
+            if rn["t"] == "Time":
+                grp = []
+                first = None
+                while i < len(fs) and fs[i][2]["t"] == "Prim" and fs[i][2]["kind"] in ("UTCTime", "GeneralizedTime"):
+                    pl = places(fs[i][2]["args"][0]) if fs[i][2].get("args") else set()
+                    if first is None:
+                        first = pl
+                    elif pl != first:
+                        break
+                    grp.append(fs[i])
+                    i += 1
+                self.match_time(rn, rc, rr, grp, path)
+                continue
+            if i >= len(fs) and rn.get("optional"):
+                continue
+            if i >= len(fs):
+                self.err(path + (self.label(rn),), "expected element is not written", expected=self.label(rn), found="end of %s" % (path[-1] if path else "list"))
+                continue
+            fc, fr, fn_ = fs[i]
+            if rn.get("optional") and not self._same_shape(rn, fn_):
+                continue
+            i += 1
+            self.match_slot((rc, rr, rn), (fc, fr, fn_), path)
+        while i < len(fs):
+            fc, fr, fn_ = fs[i]
+            i += 1
+            self.err(path + (self.label(fn_),), "unexpected extra element is written", fn_.get("sp"), expected="nothing", found=self.label(fn_) + " when " + F.show(fc))
+
+    def match_unordered(self, rs, fs, path):
+        rk = {}
+        for slot in rs:
+            rk.setdefault(oid_key(self.I, slot[2]), []).append(slot)
+        fk = {}
+        for slot in fs:
+            fk.setdefault(oid_key(self.I, slot[2]), []).append(slot)
+        for key, rslots in rk.items():
+            fslots = fk.pop(key, [])
+            if len(fslots) != len(rslots):
+                # several sites with the same OID are fine if the reference lists as many (exclusive arms)
+                if not fslots:
+                    self.err(path + (key,), "expected element is never written", expected=self.label(rslots[0][2]) + " when " + F.show(rslots[0][0]), found="absent")
+                    continue
+            # pair by condition equivalence first
+            rem = list(fslots)
+            for rslot in rslots:
+                best = None
+                for cand in rem:
+                    ce, _ = F.counterexample(rslot[0], cand[0])
+                    if ce is None:
+                        best = cand
+                        break
+                if best is None and rem:
+                    best = rem[0]
+                if best is None:
+                    self.err(path + (key,), "expected element is not written under this condition", expected=F.show(rslot[0]), found="absent")
+                    continue
+                rem.remove(best)
+                self.match_slot(rslot, best, path + (key,))
+            for extra in rem:
+                self.err(path + (key,), "element written more often than the reference allows", extra[2].get("sp"), expected="%d site(s)" % len(rslots), found=F.show(extra[0]))
+        for key, fslots in fk.items():
+            for s_ in fslots:
+                self.err(path + (key,), "unexpected element (not in the reference schema)", s_[2].get("sp"), expected="nothing", found=self.label(s_[2]) + " when " + F.show(s_[0]))
+
+    def _depends_on(self, slot, place):
+        cond, reps, node = slot
+        for a in F.atoms(cond):
+            if a[0] == "variant" and a[1] == place:
+                return True
+        if node["t"] == "Tagged":
+            t = core(node["tag"])
+            if isinstance(t, TagV) and isinstance(t.n, V):
+                n = core(t.n)
+                if isinstance(n, CallV) and any(core(a).r() == place for a in n.args):
+                    return True
+        return False
+
+    def _same_shape(self, rn, fn_):
+        if rn["t"] != fn_["t"]:
+            return False
+        if rn["t"] == "Prim":
+            return rn["kind"] == fn_["kind"]
+        return True
+
+    def label(self, n):
+        t = n["t"]
+        if t == "Prim":
+            return n["kind"]
+        if t == "Tagged":
+            if "n" in n:
+                return "[%s]" % n["n"]
+            return tag_str(self.I, n["tag"])
+        return t
+
+    def match_cond(self, rc, fc, path, sp):
+        rc, fc = alias(rc), alias(fc)
+        ce, n = F.counterexample(rc, fc)
+        if ce is not None:
+            self.err(path + ("when",), "emission condition differs from the reference; differs when " + F.show_asg(ce), sp, expected=F.show(rc), found=F.show(fc))
+            return False
+        return True
+
+    def match_slot(self, rslot, fslot, path):
+        rc, rr, rn = rslot
+        fc, fr, fn_ = fslot
+        lab = self.label(rn)
+        p = path + (lab,)
+        sp = fn_.get("sp")
+        if rn["t"] != fn_["t"]:
+            self.err(p, "different ASN.1 construct", sp, expected=self.label(rn), found=self.label(fn_))
+            return
+        if not reps_equal(rr, fr):
+            self.err(p, "repetition differs (element written once vs. once per list entry, or a different list)", sp, expected=[rep_str(x) for x in rr], found=[rep_str(x) for x in fr])
+            return
+        good = self.match_cond(rc, fc, p, sp)
+        t = rn["t"]
+        if t in ("Seq", "Set", "SetOf"):
+            self.match_list(rn["c"], fn_["c"], p, unordered=rn.get("unordered", False))
+        elif t == "Tagged":
+            want_n = rn["n"]
+            got = core(fn_["tag"])
+            gotn = None
+            if isinstance(got, TagV):
+                gotn = self.I.concrete(got.n) if isinstance(got.n, V) else got.n
+                if gotn is None:
+                    gotn = core(got.n).r()
+            elif isinstance(got, Def):
+                gotn = got.path.split("::")[-1]
+            if gotn != want_n:
+                self.err(p, "tag differs", sp, expected=want_n, found=gotn)
+                good = False
+            if rn["mode"] != fn_["mode"]:
+                # EXPLICIT [n] X and IMPLICIT [n] over a constructed SEQUENCE/SET look different on the wire
+                self.err(p, "tagging mode differs", sp, expected=rn["mode"], found=fn_["mode"])
+                good = False
+            self.match_list(rn["c"], fn_["c"], p)
+        elif t == "Prim":
+            if rn["kind"] != fn_["kind"]:
+                self.err(p, "different ASN.1 type", sp, expected=rn["kind"], found=fn_["kind"])
+                return
+            args = fn_.get("args", [])
+            if "v" in rn and args:
+                good = self.value(rn["v"], args[0], p, sp) and good
+            for j, spec in enumerate(rn.get("args", [])):
+                if j + 1 < len(args):
+                    good = self.value(spec, args[j + 1], p + ("arg%d" % (j + 1),), sp) and good
+            if "inner" in rn:
+                if "inner" not in fn_:
+                    self.err(p, "expected a nested DER value", sp, expected="DER content", found=val_str(self.I, args[0]) if args else "?")
+                else:
+                    self.match_list(rn["inner"], fn_["inner"], p)
+        elif t == "Raw":
+            good = self.value(rn.get("v"), fn_["v"], p, sp) and good
+        if good:
+            self.ok(p)
+
+    def match_choice(self, rn, rc, rr, grp, path):
+        on = rn["on"]
+        variants = list(rn["alts"].keys())
+        for extra in rn.get("all_variants", []):
+            if extra not in variants:
+                variants.append(extra)
+        if not grp:
+            self.err(path + ("choice(%s)" % on,), "no alternative is written", expected=sorted(rn["alts"]), found="nothing")
+            return
+        items = [{"t": "Cond", "f": c, "c": [self._wrap(reps, rr, n)]} for c, reps, n in grp]
+        for X in variants:
+            asg = {}
+            for Y in variants:
+                asg[("variant", on, Y)] = (Y == X)
+            spec = assume(items, asg)
+            spec = self._resolve_tags(spec, on, X)
+            want = rn["alts"].get(X, [])
+            want = [{"t": "Cond", "f": rc, "c": want}] if rc is not True else want
+            self.match_list(want, spec, path + ("%s=%s" % (on.split(".")[-1], X),))
+
+    def _wrap(self, reps, outer_reps, node):
+        # reps beyond the reference's own nesting are kept
+        extra = tuple(reps)[len(tuple(outer_reps)):]
+        for r in reversed(extra):
+            node = {"t": "Rep", "over": r, "c": [node]}
+        return node
+
+    def _resolve_tags(self, items, on, X):
+        """Replace `Tag::context(f(place))` by the table value of f for variant X."""
+        out = []
+        for it in items:
+            n = dict(it)
+            if it["t"] == "Tagged":
+                t = core(it["tag"])
+                if isinstance(t, TagV) and isinstance(t.n, V) and isinstance(core(t.n), CallV):
+                    call = core(t.n)
+                    tab = variant_table(self.I, call.callee)
+                    if tab is not None and X in tab:
+                        n["tag"] = TagV(t.cls, Const(tab[X]))
+            for key in ("c", "inner"):
+                if key in it:
+                    n[key] = self._resolve_tags(it[key], on, X)
+            out.append(n)
+        return out
+
+    def match_time(self, rn, rc, rr, grp, path):
+        p = path + ("Time(%s)" % rn["src"],)
+        if not grp:
+            self.err(p, "time field is not written", expected="UTCTime|GeneralizedTime", found="nothing")
+            return
+        # the alternatives must be exhaustive under the reference condition and all bound to src
+        conds = []
+        good = True
+        for c, reps, n in grp:
+            conds.append(c)
+            if not reps_equal(rr, reps):
+                self.err(p, "repetition differs", n.get("sp"), expected=[rep_str(x) for x in rr], found=[rep_str(x) for x in reps])
+                good = False
+            rts = places(n["args"][0])
+            if rts != {rn["src"]}:
+                self.err(p, "time value does not come from the expected field", n.get("sp"), expected=rn["src"], found=sorted(rts))
+                good = False
+        ce, _ = F.counterexample(rc, Or(*conds))
+        if ce is not None:
+            self.err(p + ("when",), "time field presence differs from the reference; differs when " + F.show_asg(ce), grp[0][2].get("sp"), expected=F.show(rc), found=F.show(Or(*conds)))
+            good = False
+        if good:
+            self.ok(p)
+
+
+def under(p, e):
+    return p == e or (p.startswith(e) and p[len(e)] in ".[#?")
+
+
+def covers(want, got):
+    """Every found place lies under an expected place and every expected place is used."""
+    return all(any(under(p, e) for e in want) for p in got) and all(any(under(p, e) for p in got) for e in want)
+
+
+def rep_str(x):
+    return x if isinstance(x, str) else core(x).r()
+
+
+def reps_equal(rr, fr):
+    rr, fr = tuple(rr), tuple(fr)
+    if len(rr) != len(fr):
+        return False
+    for a, b in zip(rr, fr):
+        if isinstance(a, str) and isinstance(b, str):
+            if a != b:
+                return False
+        elif isinstance(a, str):
+            if places(b) != {a}:
+                return False
+        elif isinstance(b, str):
+            if places(a) != {b}:
+                return False
+        elif core(a).r() != core(b).r():
+            return False
+    return True
+
+
+_TABLES = {}
+
+import re as _re
+_ALIAS = [(_re.compile(r"distinguished_name\.(entries|order)$"), "distinguished_name")]
+
+
+def alias(f):
+    """Rewrite representation-level places to the abstract place (a DistinguishedName is
+    empty iff its map / its order list is empty; C20 shows the two agree)."""
+    if f is True or f is False:
+        return f
+    if f[0] == "atom":
+        k = f[1]
+        if len(k) >= 2 and isinstance(k[1], str):
+            s = k[1]
+            for rx, rep in _ALIAS:
+                s = rx.sub(rep, s)
+            return ("atom", (k[0], s) + tuple(k[2:]))
+        return f
+    if f[0] == "not":
+        return Not(alias(f[1]))
+    if f[0] == "and":
+        return And(*[alias(g) for g in f[1]])
+    return Or(*[alias(g) for g in f[1]])
+
+
+def variant_table(interp, fn):
+    """Table variant -> constant for a local `match self { V(..) => CONST, ... }` function."""
+    key = (id(interp.crate), fn)
+    if key in _TABLES:
+        return _TABLES[key]
+    _TABLES[key] = None
+    if fn not in interp.crate.bodies:
+        return None
+    from interp import Interp
+    sub = Interp(interp.crate)
+    out = sub.run_fn(fn)
+    v = core(out["value"])
+    tab = {}
+    if isinstance(v, PhiV):
+        for c, x in v.alts:
+            val = sub.concrete(x)
+            if val is None:
+                return None
+            vs = _variants_of(c)
+            if vs is None:
+                return None
+            for name in vs:
+                tab[name] = val
+    else:
+        return None
+    _TABLES[key] = tab
+    return tab
+
+
+def _variants_of(f):
+    if f is True or f is False:
+        return None
+    if f[0] == "atom" and f[1][0] == "variant":
+        return [f[1][2]]
+    if f[0] == "or":
+        out = []
+        for g in f[1]:
+            r = _variants_of(g)
+            if r is None:
+                return None
+            out += r
+        return out
+    if f[0] == "and":
+        for g in f[1]:
+            r = _variants_of(g)
+            if r is not None:
+                return r
+    return None
